@@ -266,6 +266,9 @@ func genDec(r *vc.Rand, thorough bool) []caseLine {
 			if avail > 200 && l < maxFrame-1 {
 				continue
 			}
+			if !thorough && avail > 200 && l > maxFrame+1 && l != 0xffffffff { // long streams: boundary lengths only in quick
+				continue
+			}
 			s := encFrame(vc.Pick(r, someIDs), vc.Pick(r, someTypes), l, genBytes(avail, r.Intn(256)))
 			out = append(out, decCase(s, randSizes(r, len(s), 12), r.Intn(3) == 0, "length-field"))
 		}
